@@ -493,6 +493,12 @@ func (n *Net) send(ctx context.Context, addr string, req *tikvrpc.Request, timeo
 	if err != nil {
 		e.Err = err.Error()
 	}
+	if n.cl.SlowPresentSecondaries && err == nil && resp != nil && req.Type == tikvrpc.CmdCheckSecondaryLocks {
+		// owned schedule: of the parallel per-region answers, those that still show locks reach the resolver last
+		if r, ok := resp.Resp.(*kvrpcpb.CheckSecondaryLocksResponse); ok && len(r.GetLocks()) > 0 {
+			time.Sleep(3 * time.Millisecond)
+		}
+	}
 	if n.cl.RespLevelLocks && err == nil && resp != nil {
 		liftLockError(resp)
 		e.Resp = resp.Resp
@@ -542,6 +548,10 @@ type Cluster struct {
 	// RespLevelLocks makes the store report a lock met by BatchGet / Scan as a response-level error without
 	// pairs - the form TiKV uses for in-memory (async-commit prewrite) locks - instead of a per-pair error
 	RespLevelLocks bool
+	// SlowPresentSecondaries delays every CheckSecondaryLocks answer that still reports locks by 3 ms: the resolver
+	// asks the regions of an async-commit transaction's secondaries in parallel, and the order in which it merges
+	// "lock missing" and "lock present" answers is otherwise left to the Go scheduler
+	SlowPresentSecondaries bool
 }
 
 // liftLockError rewrites per-pair lock errors of a BatchGet / Scan response into the response-level form.
